@@ -201,6 +201,10 @@ fn split_markup(rng: &mut Rng, words: &[String]) -> Vec<Node> {
                 flush(&mut nodes, &mut buf, &mut open, rng);
                 let t = *rng.pick(&["em", "strong", "code", "span", "i"]);
                 nodes.push(El::with(t, vec![Node::Space]).node());
+            } else if rng.chance(1, 8) {
+                // white space that is not ASCII (no-break space, em space, ideographic space,
+                // vertical tab): every char::is_whitespace character separates words
+                buf.push(Node::Raw(rng.pick(&["\u{a0}", "\u{2003}", "\u{3000}", "\u{b}", "\u{a0} ", " \u{2003}", "\u{2009}\u{a0}"]).to_string()));
             } else {
                 buf.push(Node::Space);
             }
@@ -426,6 +430,45 @@ fn run_words(out: &mut CaseOut, rng: &mut Rng, words: &[String], widths: &[usize
         out.evals += 1;
         if !compare(out, "max-wrap-width-with-id", words, m.min(w), true, &g, &bytes, w, &cfg) {
             return;
+        }
+    }
+    // variant 7: a <br> in the middle, with collapsible white space before and / or after
+    // it in the source: each part is filled on its own, and no line starts or ends with
+    // a space
+    if words.len() >= 2 {
+        let w = *rng.pick(widths);
+        let k = rng.range(1, words.len() - 1);
+        let mut kids: Vec<Node> = Vec::new();
+        for (i, wd) in words.iter().enumerate() {
+            if i == k {
+                if rng.chance(1, 2) {
+                    kids.push(Node::Space);
+                }
+                kids.push(El::new("br").node());
+                if rng.chance(1, 2) {
+                    kids.push(Node::Space);
+                }
+            } else if i > 0 {
+                kids.push(Node::Space);
+            }
+            kids.push(Node::Word(wd.clone()));
+        }
+        let bytes = ast::serialize(&[El::with("p", kids).node()], &mut Fmt::layout_only(rng.fork()));
+        let cfg = Cfg::plain_nd();
+        let g = lines_of(render_string(&cfg, &bytes, w));
+        out.evals += 1;
+        if let ((Wrapped::Lines(a), _), (Wrapped::Lines(b), _), Outcome::Ok(got)) = (greedy_wrap(&words[..k], w), greedy_wrap(&words[k..], w), &g) {
+            out.inc("layouts_compared");
+            let mut exp = a.clone();
+            exp.extend(b.iter().cloned());
+            if &exp != got {
+                out.violate(
+                    "wrap-differs:around-br",
+                    format!("a paragraph with a <br> after word {}: expected {:?} (each part filled greedily on its own) got {:?}", k, exp, got),
+                    witness(&bytes, w, &cfg, json!({"words": words, "expected": exp, "got": got})),
+                );
+                return;
+            }
         }
     }
     // variant 4: inside one prefixed block
